@@ -103,6 +103,7 @@ def _load():
     from .oracles.c11 import C11
     from .oracles.c12 import C12
     from .oracles.c13 import C13
+    from .oracles.c17 import C17
 
     wide = profile()
     faulty = profile(f_zero=0.8, f_infarr=0.3, f_batch0=0.8, qcap=0.7, sched=0.35, renege=0.4, batch=0.4)
@@ -166,6 +167,10 @@ def _load():
                   route_kinds={"matrix": 0.3, "net": 0.6, "pb": 0.1, "fpb": 0.0}, f_boundary=0.05)
     register(Profile("C13", [C13], [(1, pat)],
                      "distinct history digest; non-trivial = >=1 renege or >=1 baulking decision with 0 < p < 1",
+                     B(40000, 400000)))
+    trk = profile(tracker=1.0, qcap=0.6, ccm=0.4, cct=0.25, renege=0.3, preempt=0.4, n=[1, 2, 2, 3], k=[1, 2, 2, 3], exact=0.05)
+    register(Profile("C17", [C17], [(1, trk)],
+                     "distinct history digest; non-trivial = >=5 changes of the true tracked state (blocking trackers: and >=1 blockage)",
                      B(40000, 400000)))
     cap = profile(qcap=0.9, qcap_vals=[INF, 0, 0, 1, 2, 3], syscap=0.4, batch=0.5, baulk=0.4, renege=0.3, jockey=0.5, n=[1, 2, 2, 3], **NOREROUTE)
     register(Profile("C06", [C06], [(1, cap)],
